@@ -24,6 +24,7 @@ import (
 	"github.com/NethermindEth/juno/blockchain"
 	"github.com/NethermindEth/juno/core"
 	"github.com/NethermindEth/juno/db"
+	"github.com/NethermindEth/juno/db/memory"
 	"github.com/NethermindEth/juno/pruner"
 
 	"verifharness/internal/chainkit"
@@ -40,6 +41,9 @@ type stepAct struct {
 type stepRes struct {
 	Kind string `json:"kind"`
 	Muts int    `json:"muts"`
+	// Init: the operation ended inside the lazy initialisation of the running event filter (the
+	// fault hit one of the initialisation's own durable mutations)
+	Init bool `json:"init"`
 }
 
 type step struct {
@@ -122,6 +126,9 @@ func opsString(b []step) string {
 			p := strings.ToLower(s.A.Name)
 			if s.A.Outcome != "ok" {
 				p += ":" + s.A.Outcome
+				if s.Res.Init {
+					p += fmt.Sprintf("@init%d", s.Res.Muts)
+				}
 			}
 			parts = append(parts, p)
 		}
@@ -219,10 +226,20 @@ func conformOne(in input, b []step, ns bool, be string, seed int64) (int, *vh.Di
 		panic(fmt.Sprintf("crash engine: cannot build the initial world: %v", err))
 	}
 	defer w.close()
+	wiring := "pruning"
+	if plain {
+		wiring = "archive"
+	}
 	div := func(i int, field string, exp, obs any) *vh.Divergence {
+		op, at := strings.ToLower(b[i].A.Name), ""
+		if b[i].Res.Init {
+			// the fault went into a durable mutation of the lazy filter initialisation
+			op += ":init-fault"
+			at = fmt.Sprintf(" at mutation %d = a mutation of the lazy running-filter initialisation", b[i].Res.Muts)
+		}
 		return &vh.Divergence{
-			Key:  fmt.Sprintf("conform:%s:%s", strings.ToLower(b[i].A.Name), field),
-			What: fmt.Sprintf("real node (newState=%v, %s) departs from Crash.tla at step %d (%s, outcome %s) of [%s]: %s", ns, be, i, b[i].A.Name, b[i].A.Outcome, opsString(b), field),
+			Key:  fmt.Sprintf("conform:%s:%s", op, field),
+			What: fmt.Sprintf("real node (newState=%v, %s, %s wiring) departs from Crash.tla at step %d (%s, outcome %s%s) of [%s]: %s", ns, be, wiring, i, b[i].A.Name, b[i].A.Outcome, at, opsString(b), field),
 			Step: i, Expected: exp, Observed: obs,
 		}
 	}
@@ -251,12 +268,14 @@ func conformOne(in input, b []step, ns bool, be string, seed int64) (int, *vh.Di
 			alive = true
 			r = opResult{kind: "ok"}
 		case "Query":
-			w.fk.Arm(faultkv.Off, 0, nil)
-			found, qerr := w.query(w.node.BC, w.raw)
-			r = opResult{kind: "ok", muts: w.fk.Count(), err: qerr}
-			if qerr != nil {
-				r.kind = "error"
-			}
+			// a query issues no durable mutation of its own; those of the lazy initialisation it
+			// triggers can be hit
+			var found []bk
+			var qerr error
+			r = w.faulted("query", modeOf(s.A.Outcome), k, func() error {
+				found, qerr = w.query(w.node.BC, w.raw)
+				return qerr
+			})
 			// (a block stored without transactions has no event to be found)
 			var wantFound [][]int
 			for _, id := range s.Post.Found {
@@ -403,13 +422,11 @@ func (w *world) apply(op eop, batchBytes int, mode faultkv.Mode, k int) opResult
 		if h < 0 {
 			return opResult{kind: "skip"}
 		}
-		w.fk.Arm(faultkv.Off, 0, nil)
-		_, err := w.query(w.node.BC, w.raw)
+		r := w.faulted("query", mode, k, func() error {
+			_, err := w.query(w.node.BC, w.raw)
+			return err
+		})
 		w.cacheWarm = w.cacheWarm || w.hasWindow0()
-		r := opResult{kind: "ok", muts: w.fk.Count(), err: err}
-		if err != nil {
-			r.kind = "error"
-		}
 		return r
 	case "prune":
 		if op.n < 1 || op.n >= h {
@@ -474,6 +491,57 @@ func (w *world) freshEval() []violation {
 		}
 	}
 	return vs
+}
+
+// freshNode builds a NEW process (same wiring as the node under test) on a copy of the surviving store.
+func (w *world) freshNode() (*chainkit.Node, *memory.Database, error) {
+	clone, err := cloneToMemory(w.raw)
+	if err != nil {
+		return nil, nil, err
+	}
+	floor, err := pruner.NewRetentionFloor(clone)
+	if err != nil {
+		return nil, nil, err
+	}
+	opts := []blockchain.Option{blockchain.WithRetentionFloor(floor)}
+	if !w.plain {
+		opts = append(opts, blockchain.WithRunningEventFilterInitializer(pruner.InitializeRunningEventFilter))
+	}
+	return chainkit.NewNode(clone, w.newState, opts...), clone, nil
+}
+
+// freshEventsEval: height, event index vs naive scan and the store of the next block on a NEW
+// process over a copy of the surviving store.
+func (w *world) freshEventsEval() []violation {
+	n, clone, err := w.freshNode()
+	if err != nil {
+		return []violation{{"clone", err.Error(), err}}
+	}
+	var out []violation
+	add := func(sym, detail string, err error) {
+		if !hasSym(out, sym) {
+			out = append(out, violation{sym, detail, err})
+		}
+	}
+	th, terr := w.twin.BC.Height()
+	nh, nerr := n.BC.Height()
+	if errClass(terr) != errClass(nerr) || (terr == nil && th != nh) {
+		add("height", fmt.Sprintf("node height %d (%v), expected %d (%v)", nh, nerr, th, terr), nerr)
+		return out
+	}
+	if terr == nil {
+		if oldest, err := pruner.OldestRetainedBlock(clone); err == nil {
+			w.evalEvents(n.BC, clone, max(oldest, w.off), th, add)
+		}
+	}
+	if w.twinHeight()+1 <= w.c.MaxH+1 {
+		if _, b, err := w.nextBlock(); err == nil {
+			if err := n.StoreBuilt(b); err != nil {
+				add("next-store", fmt.Sprintf("storing the next block on a fresh process fails: %v", err), err)
+			}
+		}
+	}
+	return out
 }
 
 func hasSym(vs []violation, sym string) bool {
@@ -551,15 +619,38 @@ func (e *enumRun) classify(w *world, v violation, faultOp, mode string, sameProc
 	return fmt.Sprintf("crash-inconsistent:%s:%s:%s", v.sym, faultOp, mode)
 }
 
-// check evaluates the monitors on the live process (and on a fresh one for classification).
-func (e *enumRun) check(w *world, phase, faultOp, mode string, fi, k int, keep bool) {
+// checkFresh: the process dies after the sequence (a crash between two operations is in the
+// domain like a crash inside one).  A NEW process on a copy of the surviving store re-derives its
+// running event filter from what the sequence left on disk - the graceful-stop snapshot if it is
+// still there, the persisted windows, the headers - and is judged by the event index against the
+// naive scan and by the store of the next block.  (Everything else the fresh process would read
+// is the disk the live process has just been judged on.)
+func (e *enumRun) checkFresh(w *world, faultOp, mode string, fi, k int, liveSyms map[string]bool) {
+	t0 := time.Now()
+	vs := w.freshEventsEval()
+	e.out.Count("fresh_process_evaluations", 1)
+	e.out.Count("fresh_process_eval_ms", int(time.Since(t0).Milliseconds()))
+	for _, v := range vs {
+		if liveSyms[v.sym] {
+			continue
+		}
+		key := e.classify(w, v, faultOp, mode, false)
+		e.report(key, fmt.Sprintf("[%s] newState=%v %s, ops [%s], fault %s at mutation %d of op %d (%s), a fresh process on the surviving store after the sequence (the process dies without a graceful stop): %s — %s",
+			key, e.ns, e.be, e.label(), mode, k, fi, faultOp, v.sym, v.detail), fi, k, mode)
+	}
+}
+
+// check evaluates the monitors on the live process (and on a fresh one for classification); it
+// returns the symptoms it reported.
+func (e *enumRun) check(w *world, phase, faultOp, mode string, fi, k int, keep bool) map[string]bool {
+	syms := map[string]bool{}
 	vs := w.evaluate(w.node.BC, w.raw)
 	w.cacheWarm = w.cacheWarm || w.hasWindow0()
 	if v := w.nextStore(keep); v != nil {
 		vs = append(vs, *v)
 	}
 	if len(vs) == 0 {
-		return
+		return syms
 	}
 	var fresh []violation
 	needFresh := len(w.everFailed) > 0 || w.cacheWarm
@@ -568,10 +659,12 @@ func (e *enumRun) check(w *world, phase, faultOp, mode string, fi, k int, keep b
 	}
 	for _, v := range vs {
 		sameOnly := needFresh && !hasSym(fresh, v.sym)
+		syms[v.sym] = true
 		key := e.classify(w, v, faultOp, mode, sameOnly)
 		e.report(key, fmt.Sprintf("[%s] newState=%v %s, ops [%s], fault %s at mutation %d of op %d (%s), %s: %s — %s",
 			key, e.ns, e.be, e.label(), mode, k, fi, faultOp, phase, v.sym, v.detail), fi, k, mode)
 	}
+	return syms
 }
 
 func (e *enumRun) newWorld() *world {
@@ -611,7 +704,8 @@ func (e *enumRun) dry() ([]int, bool) {
 			return cnt, false
 		}
 	}
-	e.check(w, "fault-free run", "none", "none", -1, 0, true)
+	live := e.check(w, "fault-free run", "none", "none", -1, 0, true)
+	e.checkFresh(w, "none", "none", -1, 0, live)
 	return cnt, true
 }
 
@@ -649,7 +743,8 @@ func (e *enumRun) trial(fi, k int, mode faultkv.Mode) {
 	for i := fi + 1; i < len(e.ops); i++ {
 		w.apply(e.ops[i], bb, faultkv.Off, 0)
 	}
-	e.check(w, "after continuing the sequence", op.name, ms, fi, k, true)
+	live := e.check(w, "after continuing the sequence", op.name, ms, fi, k, true)
+	e.checkFresh(w, op.name, ms, fi, k, live)
 }
 
 func TestCrashEnum(t *testing.T) {
@@ -685,17 +780,18 @@ func TestCrashEnum(t *testing.T) {
 				}
 				n := 0
 				for fi := range e.ops {
-					// the fault goes into the operation's OWN durable mutations: the single
-					// batch/put of store, revert, setL1, snapshot (a preceding put of the lazy
-					// running-filter initialisation is not a target), every batch of a prune
-					first := cnt[fi]
-					switch e.ops[fi].name {
-					case "prune":
-						first = 1
-					case "query", "restart":
+					// the fault goes into EVERY durable mutation the operation issues: the mutations
+					// of the lazy running-filter initialisation it triggers (delete of the loaded
+					// snapshot, put of a window completed while filling) - the only ones a query
+					// has -, then its own: the single batch/put of store, revert, setL1, snapshot,
+					// every batch of a prune
+					if e.ops[fi].name == "restart" {
 						continue
 					}
-					for k := max(first, 1); k <= cnt[fi]; k++ {
+					if (cnt[fi] > 1 && e.ops[fi].name != "prune") || (e.ops[fi].name == "query" && cnt[fi] > 0) {
+						out.Count("ops_with_init_mutations", 1)
+					}
+					for k := 1; k <= cnt[fi]; k++ {
 						for _, mode := range []faultkv.Mode{faultkv.FailAt, faultkv.CrashAfter} {
 							if in.MaxTrials > 0 && n >= in.MaxTrials {
 								continue
@@ -735,8 +831,9 @@ func TestCrashProbe(t *testing.T) {
 	gen := consts{MaxH: 5, MaxVer: 3, InitH: 2, Boundary: 99, Genesis: true}
 	bnd := consts{MaxH: 4, MaxVer: 3, InitH: 2, Boundary: 2, Genesis: false}
 	var realErr error
-	mustWorld := func(c consts) *world {
-		w, err := newWorld(c, seed, false, "memory", false)
+	mustWorld := func(c consts) *world { return nil }
+	mustWorldWired := func(c consts, plain bool) *world {
+		w, err := newWorld(c, seed, false, "memory", plain)
 		if errors.Is(err, errOnRealCode) {
 			realErr = err
 			return nil
@@ -746,6 +843,7 @@ func TestCrashProbe(t *testing.T) {
 		}
 		return w
 	}
+	mustWorld = func(c consts) *world { return mustWorldWired(c, false) }
 	found := func(w *world, id bk) bool {
 		ids, err := w.query(w.node.BC, w.raw)
 		if err != nil {
@@ -785,6 +883,41 @@ func TestCrashProbe(t *testing.T) {
 			"graceful stop at height 2, start, revert block 2, store block 2', process dies, start: the stale snapshot (next = 3) is reused and the event of block 2' is not returned")
 		w.close()
 	}
+	// the lazy initialisation's own durable mutation - the delete that consumes the snapshot it has
+	// loaded - fails: the initialisation must fail with it (the operation that triggered it reports
+	// the error and applies nothing), be retried by the next operation, and the snapshot must be
+	// gone once the node runs on it.  Both wirings: core.InitializeRunningEventFilter (archive
+	// node) and pruner.InitializeRunningEventFilter.
+	{
+		consumeOK, retryOK := true, true
+		var consumeWhat, retryWhat string
+		for _, plain := range []bool{true, false} {
+			wiring := map[bool]string{true: "core.InitializeRunningEventFilter", false: "pruner.InitializeRunningEventFilter"}[plain]
+			w := mustWorldWired(gen, plain)
+			w.snapshot(faultkv.Off, 0) // graceful stop at height 2 ...
+			_ = w.restart()            // ... start
+			r1 := w.revert(faultkv.FailAt, 1) // mutation 1 of this RevertHead = the initialisation's delete
+			r2 := opResult{kind: "ok"}
+			if r1.kind != "ok" { // (ok = the error was swallowed: block 2 is already reverted)
+				r2 = w.revert(faultkv.Off, 0) // the next operation initialises again
+			}
+			if r2.kind != "ok" {
+				retryOK = false
+				retryWhat = fmt.Sprintf("%s: graceful stop at height 2, start, RevertHead whose lazy filter initialisation fails in its snapshot delete (%v), RevertHead again: %v — the failed initialisation is latched", wiring, r1.err, r2.err)
+				_ = w.restart()
+				w.revert(faultkv.Off, 0)
+			}
+			w.store(faultkv.Off, 0) // 2'
+			_ = w.restart()         // the process dies, start
+			if !found(w, bk{2, 2}) {
+				consumeOK = false
+				consumeWhat = fmt.Sprintf("%s: graceful stop at height 2, start, RevertHead with an error injected into its first durable mutation (the initialisation's delete of the loaded snapshot) returned %s, [RevertHead,] store block 2', process dies, start: the snapshot (next = 3) is still on disk and resumed, the event of block 2' is not returned", wiring, r1.String())
+			}
+			w.close()
+		}
+		verdict("FixInitConsume", consumeOK, "event-filter:init-delete-error-ignored:stale-snapshot-reused-after-restart", consumeWhat)
+		verdict("FixInitRetry", retryOK, "event-filter:failed-init-latched:store-fails-until-restart", retryWhat)
+	}
 	// H12: the oldest retained block must advance with every hash-keyed prune batch
 	{
 		w := mustWorld(consts{MaxH: 6, MaxVer: 2, InitH: 5, Boundary: 99, Genesis: true})
@@ -819,7 +952,7 @@ func TestCrashProbe(t *testing.T) {
 			fmt.Sprintf("height 8192, revert 8192 and 8191, process dies, start, store 8191': %v", r.err))
 		w.close()
 	}
-	out.Done(5, 5)
+	out.Done(7, 7)
 }
 
 
